@@ -2,6 +2,8 @@ SPECIFICATION Spec
 CONSTANTS
   NL = 0
   FailAt = 0
-INVARIANTS CleanupOnError AllServing CollectsAll NoListenersNoReturn
+  MaxRx = 2
+  EmptyQuits = FALSE
+INVARIANTS ServesWhileOpen CleanupOnError AllServing CollectsAll NoListenersNoReturn
 PROPERTIES WaitReturns
 CHECK_DEADLOCK FALSE
